@@ -117,6 +117,16 @@ func c14ReservedSpec(rng *rand.Rand, i int) *SessSpec {
 	sp := &SessSpec{NumVB: 1 + rng.Intn(5), Nodes: 1, AckSeed: rng.Int63(), Backend: []string{"mem", "cb", "file"}[rng.Intn(3)], Backlog: map[int][][]ItemSpec{}}
 	sp.PNow, sp.PDefer = 0.6, 0.3
 	o := &HistOpts{NumVB: sp.NumVB, PReserved: 0.45, PSystem: 0.03, PSeqAdv: 0.05, MaxItems: 5}
+	if i%4 == 2 {
+		// a skip window on top: reserved-key events with a CAS time before it stay unflagged like all others
+		sp.SkipUntil = time.Now().Unix() + 3600
+		o.SkipUntil = sp.SkipUntil
+		if rng.Intn(2) == 0 {
+			sp.SkipUntil = time.Now().Unix() - int64(rng.Intn(3))
+			o.SkipUntil = sp.SkipUntil
+			o.CasAround = true
+		}
+	}
 	ctr := 0
 	for vb := 0; vb < sp.NumVB; vb++ {
 		sp.Backlog[vb] = append(sp.Backlog[vb], genSnap(rng, o, &ctr))
@@ -179,6 +189,9 @@ func runC14(sc drv.Scenario) drv.Result {
 		for vb, segs := range tr.Segs {
 			for _, sg := range segs {
 				for _, it := range sg.Items {
+					if tr.Spec.SkipUntil != 0 && int64(it.Cas/1000000000) < tr.Spec.SkipUntil {
+						continue // dropped by the skip window before the reserved-key check: no position, no flag
+					}
 					if isDoc(it.Kind) && reservedKey([]byte(it.Key)) {
 						nres++
 						if !tracked[[2]uint64{uint64(vb), it.Seq}] && tr.BarrierTimeouts == 0 {
